@@ -59,6 +59,8 @@ def step (st0 : St) (j : Json) : Except String (St × Json × List Fired) := do
   if op != "tick" then throw s!"unknown op {op}"
   -- the chain's current-feed list may have changed before this round
   let st : St := match parseFeeds j with | some f => { st0 with feeds := f } | none => st0
+  -- …and so may the cooldown (a parameter change): the daemon reads the parameters at the start of every round
+  let st : St := match jint j "cooldown" with | .ok c => { st with cooldown := c } | .error _ => st
   let out := (j.getObjVal? "out").toOption.getD Json.null
   let mut fired : List Fired := []
   let now ← jint j "now"
